@@ -99,6 +99,10 @@ func main() {
 		defer writeProf()
 	}
 
+	if !zsim.Hosted() {
+		fmt.Fprintln(os.Stderr, "simworker: built without -ldflags \"-X github.com/rs/zerolog/zsim.hosted=1\": goroutines started by package initialisation would run outside the simulator")
+		os.Exit(2)
+	}
 	zsim.Deep = *deep
 	if *world == "" {
 		*world = worlds.WorldFor(*prop)
